@@ -205,6 +205,7 @@ fn ast_type(t: &syn::Type) -> J {
                     let args: Vec<J> = ab
                         .args
                         .iter()
+                        .filter(|g| !matches!(g, syn::GenericArgument::Lifetime(_)))
                         .map(|g| match g {
                             syn::GenericArgument::Type(t) => ast_type(t),
                             g => a("unsupported", vec![jn(g)]),
@@ -217,6 +218,7 @@ fn ast_type(t: &syn::Type) -> J {
         }
         syn::Type::ImplTrait(i) => a("timpl", vec![jn(&i.bounds)]),
         syn::Type::Tuple(t) if t.elems.is_empty() => a("tunit", vec![]),
+        syn::Type::Tuple(t) => a("ttuple", vec![J::A(t.elems.iter().map(ast_type).collect())]),
         t => a("unsupported", vec![jn(t)]),
     }
 }
@@ -281,6 +283,7 @@ fn ast_macro(m: &syn::Macro) -> J {
     let name = m.path.segments.last().map(|x| x.ident.to_string()).unwrap_or_default();
     match name.as_str() {
         "panic" | "unreachable" => a("panic", vec![s(&name)]),
+        "quote" => a("quote", vec![s(norm(&m.tokens))]),
         "format" => {
             struct F(syn::LitStr);
             impl syn::parse::Parse for F {
